@@ -3,6 +3,7 @@ CONSTANTS
   Kinds = {"send", "inv"}
   UseCancel = FALSE
   ApiModes = {FALSE}
+  UseSecond = FALSE
   TestRng = TRUE
 SPECIFICATION Spec
 INVARIANT Inv_Fresh
